@@ -89,7 +89,7 @@ def gen_doc(rng):
         if rng.random() < 0.6: a += f' stroke-linecap="{rng.choice(["butt", "round", "square"])}"'
         if rng.random() < 0.6: a += f' stroke-linejoin="{rng.choice(["miter", "round", "bevel"])}"'
         if rng.random() < 0.3: a += f' stroke-miterlimit="{rng.choice([1, 2, 10])}"'
-        if rng.random() < 0.45: a += f' stroke-dasharray="{rng.choice(["5", "6,3", "2 3 4", "7,2,3,2", "4, 4"])}"'
+        if rng.random() < 0.45: a += f' stroke-dasharray="{rng.choice(["5", "6,3", "2 3 4", "7,2,3,2", "4, 4", "6 0 0 5", "0 0"])}"'
         if rng.random() < 0.3: a += f' stroke-dashoffset="{rng.choice([2, 3.5, -3])}"'
         if rng.random() < 0.3: a += f' stroke-opacity="{rng.choice([0.5, 0.25])}"'
         return a
